@@ -199,3 +199,13 @@ FAMILIES["C16"] = dict(
                 "per function, plus the laws as JSONata equalities; every case is replayed into the real code and validated; seeded strings up to length 40 over a wider alphabet are validated the same way."),
     level_note=_SEM_NOTE + " Case mapping is an explicit table (ASCII, Latin-1, Greek, Cyrillic); outside it the specification abstains. The escaping convention of $encodeUrlComponent is an open choice (form-encoding or URI-component); only the round trip is fixed by the statement.",
 )
+
+
+FAMILIES["C17"] = dict(
+    g=[G("MC_C17", "MC_C17_quick.cfg", "MC_C17_thorough.cfg")],
+    v=[dict(profile="rx", n={"quick": 6000, "thorough": 120000})],
+    level_text=("The regular-expression engine is an environment of the specification: each recorded step carries, for every regex literal of the program and every string it can be applied to, the match list the engine reported (checked for well-formedness by JRegex!WellFormedMatches). "
+                "Everything the port builds on it is specified in TLA+ (JRegex/JEval): match objects and the `next` chain, $match with limit, $contains, $split, $replace with the $N/$0/$$ template rule and with a replacement function, limits, context defaulting; the scanner and grammar specifications cover the literal syntax (\\/, bracket depth, flags). "
+                "TLC checks the template rule's laws and enumerates every template of <= 4 (5) units over {$,0,1,2,x} plus two-digit forms against patterns with 0/1/2/3/12 groups, and every function form over 8 patterns x 10 subjects x 6 limits; seeded patterns from a grammar (classes, alternation, nested/optional groups, quantifiers, anchors, every flag subset) x subjects <= 12 x templates x limits are validated the same way."),
+    level_note=_SEM_NOTE + " That RE2 itself finds the leftmost non-overlapping matches is assumed (environment); the recorded match lists come from Go's regexp applied to the pattern text the parser extracted.",
+)
